@@ -4,6 +4,8 @@ CONSTANTS
   MaxChild = 1
   MaxPost = 0
   MaxTotal = 1
+  MinPre = 0
+  MinTotal = 0
   Leaky = TRUE
   Alphabet <- CoreCmds
   Kinds <- AllKinds
